@@ -69,7 +69,8 @@ class ArbiterWorld(World):
                 "feats_as": rng.choice(["str", "str", "enum"]),
                 "mid_elab": rng.range(1, n) if (n > 1 and rng.chance(0.12)) else None,
                 "decoy": int(rng.chance(0.1)),
-                "reset_at": rng.range(5, 60) if rng.chance(0.15) else None}
+                "reset_at": rng.range(5, 60) if rng.chance(0.15) else None,
+                "omit": int(rng.chance(0.3))}
 
     def gen_ops(self, rng, config, prop):
         ops = []
@@ -112,8 +113,10 @@ class ArbiterWorld(World):
             else (lambda fs: set(fs))
         dut = hw.must_accept("C08" if "C08" in props else "C09",
                              f"wishbone.Arbiter(addr_width={aw}, data_width={dw}, granularity={g}, "
-                             f"features={sorted(feats)})", wishbone.Arbiter, addr_width=aw,
-                             data_width=dw, granularity=g, features=spell(feats))
+                             f"features={sorted(feats)})", wishbone.Arbiter,
+                             **hw.spelled(config.get("omit"), {"granularity": dw, "features": set()},
+                                          addr_width=aw, data_width=dw, granularity=g,
+                                          features=spell(feats)))
         intrs = []
         mid = config.get("mid_elab")
         for i, ic in enumerate(config["intrs"]):
